@@ -84,6 +84,49 @@ def main():
             chk.drift.append({"what": d["what"], "detail": d["detail"], "source": ef})
     if tot["over24"] == 0:
         raise vlib.ToolError("no position with game phase above 24: vacuous")
+    # the evaluation as a linear form (EvalTerms.tla): the engine's own coefficient of every parameter equals the one the
+    # specification derives from the board, the value is the blended sum (CodeView, drift); and, from the real parameter
+    # tables, the universal bound: for every army the rules allow each half stays within 16 bits and out of the mate range
+    hb = vlib.build_harness("dev")
+    parf = os.path.join(chk.outdir, "eval_params.json")
+    vlib.harness(hb, ["evalterms", "params", parf])
+    per = 150 if q else 1500
+
+    def terms(i):
+        if i < 0:
+            empty = os.path.join(chk.outdir, "et_empty.ndjson")
+            open(empty, "w").close()
+            t = vlib.tlc("Trace_EvalTerms", env={"TRACE": empty, "PARAMS": parf, "BOUND": "1"}, timeout=1800, xmx="3g")
+            if t.error or not t.stats("bound"):
+                raise vlib.ToolError("Trace_EvalTerms (bound): " + (t.error or t.stdout[-1500:]))
+            return t, None
+        src = os.path.join(chk.outdir, "pos_%d.ndjson" % i)
+        sub = os.path.join(chk.outdir, "etpos_%d.ndjson" % i)
+        rows = vlib.read_ndjson(src)
+        chk.rng.shuffle(rows)
+        vlib.write_ndjson(sub, rows[:per])
+        ef = os.path.join(chk.outdir, "et_%d.ndjson" % i)
+        vlib.harness(hb, ["evalterms", "positions", sub, ef])
+        t = vlib.tlc("Trace_EvalTerms", env={"TRACE": ef, "PARAMS": parf, "BOUND": "0"}, timeout=3000, xmx="3g")
+        if t.error or not t.stats("evalterms"):
+            raise vlib.ToolError("Trace_EvalTerms: " + (t.error or t.stdout[-1500:]))
+        return t, ef
+    et = {"positions": 0, "passed": 0, "pairs": 0}
+    for t, ef in vlib.pmap(terms, [-1] + list(range(nchunk)), n=16):
+        for d in t.viols("C16"):
+            det = d.get("detail") or {}
+            chk.violation("%s|%s" % (d["what"], det.get("fen") or json.dumps(det, sort_keys=True)), d["what"], {"report": d},
+                          replay={"kind": "eval-terms", "params": parf, "events": ef})
+        for d in t.drifts("EVAL"):
+            chk.drift.append({"what": "evaluation-term: " + d["what"], "detail": d["detail"], "source": ef})
+        if ef is None:
+            chk.cov["universal_bound_from_the_parameter_tables"] = t.stats("bound")[0]
+        else:
+            for k in et:
+                et[k] += t.stats("evalterms")[0][k]
+    if et["positions"] == 0 or et["passed"] == 0:
+        raise vlib.ToolError("vacuous evaluation-term validation: %s" % et)
+    chk.cov["evaluation_terms_validated"] = et
     # node level (hook H6): every static evaluation taken inside recorded searches stays out of the mate range
     nodes.standard(chk, ("C16",), scale=0.25)
     chk.cov.update({
